@@ -178,6 +178,16 @@ def run(ctx):
                     okall = True
                     dropped = False
                     for (k, minlen, restart, how) in ops:
+                        if rng.random() < 0.25:
+                            # a read-only view of the matrix between two searches must not change what the next search finds
+                            try:
+                                if compact or rng.random() < 0.7:
+                                    lc.wp_slice(positivize=rng.random() < 0.7)
+                                else:
+                                    lc.wp_slice(1, r + 1, 1, c + 1, positivize=True)
+                                ctx.count("lc_wp_slice_reads_between_searches")
+                            except Exception as e_:
+                                ctx.violation("exception", fn=fn + ".wp_slice", error=repr(e_)[:300], **wit)
                         if restart or dropped:
                             # kbest_matches_store(keep=False) resets the bookkeeping when it returns: what follows is a new session
                             consumed = set()
